@@ -90,6 +90,24 @@ type Holder struct {
 	M map[string]Inner
 }
 
+// HolderSub / HolderInline: model.Inner behind every way one struct type can
+// reach another (inlined, nested, pointer, slice and map of the sub-struct):
+// whatever the library derives per sub-struct type (field tables, compiled
+// folders) is derived here under per-instance custom folders/unfolders.
+type HolderSub struct {
+	A Inner
+	L []Inner
+}
+
+type HolderInline struct {
+	X    string
+	Sub  HolderSub `struct:",inline"`
+	Deep HolderSub
+	PS   *HolderSub
+	LS   []HolderSub
+	MS   map[string]HolderSub
+}
+
 // OrderedKV is unfolded through a user-defined gotype.UnfoldState (Expander)
 // that RETAINS the keys and strings it receives, and folded through Folder.
 type OrderedKV struct {
@@ -313,6 +331,23 @@ type HasBad struct {
 	Name string
 	B    BadField
 	P    *BadField
+}
+
+// Namer is an interface WITH methods: no document can produce a value for it,
+// so a target that holds one (field, element) must be refused by SetTarget -
+// treating its two words as an empty interface is type confusion.
+type Namer interface{ Name() string }
+
+type IfaceField struct {
+	A string
+	S Namer
+	Z string
+}
+
+type HasIface struct {
+	N string
+	L []Namer
+	M map[string]Namer
 }
 
 // OptInt reports emptiness through a POINTER-receiver IsZero and folds itself.
@@ -1560,6 +1595,15 @@ var Catalogue = []TypeEntry{
 		}
 		return h
 	}),
+	mk("HolderInline", true, func(c *simkit.Choices) HolderInline {
+		sub := func(c *simkit.Choices) HolderSub { return HolderSub{A: genInner(c), L: genSlice(c, genInner)} }
+		h := HolderInline{X: genStr(c), Sub: sub(c), Deep: sub(c), LS: genSlice(c, sub), MS: genMap(c, sub)}
+		if c.Bool() {
+			v := sub(c)
+			h.PS = &v
+		}
+		return h
+	}),
 	mk("map[MyStr]Simple", true, func(c *simkit.Choices) map[MyStr]Simple {
 		m := genMap(c, genSimple)
 		if m == nil {
@@ -1746,6 +1790,10 @@ var Catalogue = []TypeEntry{
 		return WithFolder{Name: genStr(c), T: Celsius(c.N(100)), TS: genSlice(c, func(c *simkit.Choices) Celsius { return Celsius(c.N(50)) })}
 	})),
 	unsupported(mk("map[int]string", true, func(c *simkit.Choices) map[int]string { return nil })),
+	unsupported(mk("IfaceField", true, func(c *simkit.Choices) IfaceField { return IfaceField{A: genStr(c), Z: genStr(c)} })),
+	unsupported(mk("HasIface", true, func(c *simkit.Choices) HasIface { return HasIface{N: genStr(c)} })),
+	unsupported(mk("[]Namer", true, func(c *simkit.Choices) []Namer { return nil })),
+	unsupported(mk("map[string]Namer", true, func(c *simkit.Choices) map[string]Namer { return nil })),
 	unsupported(mk("BadField", true, func(c *simkit.Choices) BadField { return BadField{A: c.N(10), Z: genStr(c)} })),
 	unsupported(mk("HasBad", true, func(c *simkit.Choices) HasBad { return HasBad{Name: genStr(c)} })),
 	unsupported(mk("[]BadField", true, func(c *simkit.Choices) []BadField { return nil })),
@@ -1981,7 +2029,7 @@ func localRecordB() TypeEntry {
 
 var families = map[string][]string{
 	"wrap":   {"WrapPtr", "WrapMap", "WrapStr", "Wrap3", "[]WrapPtr", "map[string]WrapStr", "Ptrs"},
-	"inner":  {"Inner", "Holder", "Nested", "Tagged", "[]*Inner", "Wide", "[]Wide", "OmitAll", "Ptrs", "Inline2", "TwoMaps"},
+	"inner":  {"Inner", "Holder", "HolderInline", "Nested", "Tagged", "[]*Inner", "Wide", "[]Wide", "OmitAll", "Ptrs", "Inline2", "TwoMaps"},
 	"named":  {"NamedSlice", "NamedMap", "NamedFields", "[]NamedSlice", "[]int", "map[string]string"},
 	"score":  {"PtrShaped", "HasPtrShaped", "Score", "[]Score", "map[string]Score", "Scored", "int"},
 	"packed": {"PackedU8", "PackedI8", "PackedBool", "PackedU16", "PackedI16", "PackedU32", "PackedI32", "PackedF32", "PackedMix"},
@@ -1991,7 +2039,7 @@ var families = map[string][]string{
 		"map[string]int8", "map[string]int16", "map[string]int32", "map[string]int64", "map[string]uint", "map[string]uint8", "map[string]uint16", "map[string]uint32", "map[string]uint64", "map[string]float32", "map[string]float64", "[]float32", "[]float64"},
 	"kv":     {"[]*OrderedKV", "map[string]*OrderedKV", "OrderedKV", "WithKV", "map[string]string", "Strs"},
 	"arrays": {"Triple", "Pair", "Quad", "[]interface{}-of-named-arrays", "[3]int", "ArrHolder", "[]interface{}"},
-	"bad":    {"BadField", "HasBad", "[]BadField", "Simple", "Inner"},
+	"bad":    {"BadField", "HasBad", "[]BadField", "Simple", "Inner", "IfaceField", "HasIface"},
 	"label":  {"Label", "Labeled", "Strs", "Prims", "PInt16", "[]PUint32", "IntList", "Lists", "[]*Label", "map[string]*Label", "[]*Score", "[]*PInt16", "map[string]*IntList"},
 	"omit":   {"Opts", "[]Opts", "OmitIfc", "OmitAll", "LongNames", "Tagged"},
 	"empty":  {"[]Empty", "map[string]Empty", "Empties", "[]interface{}", "map[string]interface{}"},
